@@ -1883,6 +1883,15 @@ def reshape(it, a: Arr, shape, order="C"):
         if isinstance(c, int) and c == 1 and isinstance(a_c, int) and a_c == 1:
             ctx.raise_unless(T.eq(r, a_r), "ValueError", "cannot reshape")
             return Arr((a_r, 1), lambda i, j, f=a.fn: f(i, 0), a.dtype, base=a)
+    if a.ndim == 1 and len(shape) == 2 and not any(isinstance(v, int) and v == -1 for v in shape) and order in ("C", "F"):
+        # vector -> (r, c) matrix: column-major entry (i, j) = a[i + r*j], row-major a[i*c + j]
+        r_, c_ = shape
+        ctx.raise_unless(T.eq(T.mul(r_, c_), a.shape[0]), "ValueError", "cannot reshape array")
+        ctx.trusted.add("numpy:reshape(vector -> matrix; C and F order)")
+        src = snap(a)
+        if order == "F":
+            return Arr((r_, c_), lambda i, j, f=src.fn, r_=r_: f(T.add(i, T.mul(r_, j))), a.dtype)
+        return Arr((r_, c_), lambda i, j, f=src.fn, c_=c_: f(T.add(T.mul(i, c_), j)), a.dtype)
     m1 = lambda v: isinstance(v, int) and v == -1
     one = lambda v: isinstance(v, int) and v == 1
     # --- the forms that keep the last axis and merge / insert leading axes (Khatri-Rao by broadcasting)
